@@ -15,6 +15,7 @@ from mmverif.engine import cardlemmas
 from mmverif.engine import libcontracts as lc
 from mmverif.engine.specops import *  # pylint: disable=wildcard-import
 from mmverif.engine.specs import LoopSpec
+from mmverif.engine.specs import clauses as _clauses
 from mmverif.engine.values import *  # pylint: disable=wildcard-import
 
 I = z3.IntSort()
@@ -115,6 +116,37 @@ def vol_ok(s, t, c):
 def budget_ok(s, t, c):
   p = s.self.parameters
   return in_range(RI(s, t, c) / N(p.iroas), p.budget_range)
+
+
+# ---------------------------------------------------------------------------
+# stored designs as heap items (see search_results below)
+
+IT_T = z3.Function('IT_T', ItemSort, SetI)
+IT_C = z3.Function('IT_C', ItemSort, SetI)
+KEY0 = z3.Function('key_int', I, KeySort)(z3.IntVal(0))
+
+
+def _stored_ok(s):
+  """Every design stored under key 0 has groups made of positions of the
+  installed geo index; no other key is used."""
+  dd = unwrap(s.results._result)
+  bag = hd.bag_of(dd, s.lheap, KEY0)
+  ga = GA(s)
+  it = z3.Const('it!so', ItemSort)
+  k = z3.Const('k!so', KeySort)
+  return z3.And(
+      z3.ForAll([k], z3.Implies(z3.IsMember(k, dd.dom), k == KEY0)),
+      z3.ForAll([it], z3.Implies(z3.Select(bag, it) >= 1, z3.And(
+          z3.IsSubset(IT_T(it), S(ga.all)), z3.IsSubset(IT_C(it), S(ga.all))))))
+
+
+def _reflect_push(s):
+  """Ghost definition: the heap item standing for the pushed design object
+  carries the design's groups."""
+  item = lc.item_term(unwrap(s.design))
+  s.ctx.assume(IT_T(item) == S(s.design.treatment_geos))
+  s.ctx.assume(IT_C(item) == S(s.design.control_geos))
+  return z3.BoolVal(True)
 
 
 # ---------------------------------------------------------------------------
@@ -222,7 +254,9 @@ EX_LOOP_MOD = ['results._result', '@lheap'] + [
     'self.data.' + f for f in ('_geo_index', 'geo_assignments', '_array',
                                '_array_geo_share')]
 EX_INV = [('result heap well formed', _results_wf),
-          ('the geo index of geo_assignments is installed', installed)]
+          ('the geo index of geo_assignments is installed', installed),
+          ('stored designs are made of index positions', _stored_ok,
+           ('C01', 'C04', 'C09', 'C10'))]
 
 spec.contract(
     CLS + '.exhaustive_search', params={},
@@ -248,6 +282,7 @@ spec.contract(
          _push_c04_score, ('C04',)),
         ('C04 stored design owns fresh copies (not shared with the loop)',
          _freeze, ('C04',)),
+        ('ghost: item view of the pushed design', _reflect_push, ()),
     ]},
     ensures=[],
     loops=[
@@ -257,18 +292,149 @@ spec.contract(
                  invariants=EX_INV, extra_modifies=EX_LOOP_MOD),
         LoopSpec(('control_group', 'control_groups'),
                  invariants=EX_INV,
-                 extra_modifies=EX_LOOP_MOD + [
-                     'diag._x', 'diag._x_mean', 'diag._corr',
-                     'diag._required_impact']),
+                 extra_modifies=EX_LOOP_MOD + ['diag._x', 'diag._x_mean'] + [
+                     'diag.' + f for f in cl.dg.CACHES]),
     ])
+
+# ---------------------------------------------------------------------------
+# stored designs as heap items: IT_T / IT_C give the index groups of a stored
+# item, RT / RC the ID groups of a returned (copied) design object.
+
+RT = z3.Function('RT', ItemSort, SetI)
+RC = z3.Function('RC', ItemSort, SetI)
+SRC = z3.Function('SRC', ItemSort, ItemSort)   # stored item a copy came from
+IMG = z3.Function('IMG', I, SetI, SetI)
+
+
+def _lift(ctx, item):
+  """Object view of a stored design item (only the groups are interpreted)."""
+  obj = ctx.new_object('TBRMMDesign', 'stored_design')
+  rec = ctx.objects[obj.oid]
+  rec.fields['treatment_geos'] = VSet(IT_T(item), I)
+  rec.fields['control_geos'] = VSet(IT_C(item), I)
+  rec.fields['score'] = VOpaque(z3.Function('IT_SCORE', ItemSort, sort_named(
+      'ScoreRef'))(item), 'ScoreRef')
+  rec.fields['diag'] = VOpaque(z3.Function('IT_DIAG', ItemSort, sort_named(
+      'DiagRef'))(item), 'DiagRef')
+  obj.lifted_from = item
+  # the object IS the stored design: writing to it changes the stored result
+  ctx.frozen[obj.oid] = 'stored design'
+  ctx.lifted = getattr(ctx, 'lifted', {})
+  ctx.lifted[obj.oid] = item
+  return obj
+
+
+def _reflect(ctx, obj, item):
+  """Facts about the item that stands for an object stored into a list."""
+  rec = ctx.objects[obj.oid]
+  t = rec.fields.get('treatment_geos')
+  c = rec.fields.get('control_geos')
+  if isinstance(t, VSet):
+    ctx.assume(RT(item) == t.t)
+  if isinstance(c, VSet):
+    ctx.assume(RC(item) == c.t)
+  src = getattr(ctx, 'lifted', {}).get(getattr(obj, 'copy_of', obj.oid))
+  if src is not None:
+    ctx.assume(SRC(item) == src)
+
+
+lc.ITEM_HOOKS['lift'] = _lift
+lc.ITEM_HOOKS['reflect'] = _reflect
+
+
+def stored_bag(s, hd_obj, lheap_):
+  dd = unwrap(hd_obj._result)
+  return hd.bag_of(dd, lheap_, KEY0), hd.len_of(dd, lheap_, KEY0), dd
+
+
+def _sr_requires(s):
+  bag, ln, dd = stored_bag(s, s.self._search_results, s.lheap)
+  idx = unwrap(s.self.data._geo_index).val
+  it = z3.Const('it!sr', ItemSort)
+  k = z3.Const('k!sr', KeySort)
+  rng = cardlemmas.range_set(z3.IntVal(0), idx.length)
+  return z3.And(
+      hd.wf(dd, s.lheap),
+      z3.ForAll([k], z3.Implies(z3.IsMember(k, dd.dom), k == KEY0)),
+      z3.ForAll([it], z3.Implies(z3.Select(bag, it) >= 1, z3.And(
+          z3.IsSubset(IT_T(it), rng), z3.IsSubset(IT_C(it), rng)))))
+
+
+def _sr_elems(s, seq):
+  """Every returned design is a copy of a stored one with both groups mapped
+  through the geo index."""
+  bag, ln, dd = stored_bag(s, s.old.self._search_results, s.old_lheap)
+  idx = unwrap(s.self.data._geo_index).val
+  it = z3.Const('it!se', ItemSort)
+  return z3.ForAll([it], z3.Implies(z3.IsMember(it, seq.elems), z3.And(
+      z3.Select(bag, SRC(it)) >= 1,
+      RT(it) == IMG(idx.sid, IT_T(SRC(it))),
+      RC(it) == IMG(idx.sid, IT_C(SRC(it))))))
+
+
+def _sr_post_elems(s):
+  return _sr_elems(s, unwrap(s.result))
+
+
+def _sr_post_len(s):
+  bag, ln, dd = stored_bag(s, s.old.self._search_results, s.old_lheap)
+  return unwrap(s.result).length == ln
+
+
+def _sr_inv(s):
+  seq = unwrap(s.output_result)
+  return z3.And(_sr_elems(s, seq), seq.length == N(s.iter_index))
+
+
+def _sr_heap_kept(s):
+  return hd._lists_unchanged(s)
+
 
 spec.contract(
     CLS + '.search_results', params={}, result=TSeq(ItemSort),
-    modifies=[], props=('C01', 'C10', 'C14'),
-    requires=[], ensures=[])
+    modifies=[], props=('C01', 'C04', 'C10', 'C14'),
+    requires=[('a search has stored well-formed designs over the installed '
+               'geo index', _sr_requires),
+              ('the geo index of geo_assignments is installed', installed),
+              ('list heap well formed', heap_ok)],
+    locals_shapes={'output_result': TSeq(ItemSort)},
+    ensures=[
+        ('C01/C04 every returned design is a stored design with its groups '
+         'mapped index -> ID through the geo index', _sr_post_elems,
+         ('C01', 'C04')),
+        ('C14 as many designs as stored (at most n_designs), in heap order',
+         _sr_post_len, ('C14',)),
+        ('C10 the stored designs are not modified', _sr_heap_kept, ('C10',)),
+    ],
+    loops=[LoopSpec(('d', 'design'), invariants=[
+        ('copies so far are mapped stored designs', _sr_inv),
+        ('stored lists unchanged', _sr_heap_kept)],
+                    extra_modifies=[])])
+
+def _search_post_elems(s):
+  """Returned designs are the stored designs of this search, groups mapped
+  index -> ID through the installed geo index."""
+  dd = unwrap(s.self._search_results._result)
+  bag = hd.bag_of(dd, s.lheap, KEY0)
+  idx = unwrap(s.self.data._geo_index).val
+  seq = unwrap(s.result)
+  ga = GA(s)
+  it = z3.Const('it!sp', ItemSort)
+  return z3.ForAll([it], z3.Implies(z3.IsMember(it, seq.elems), z3.And(
+      z3.Select(bag, SRC(it)) >= 1,
+      RT(it) == IMG(idx.sid, IT_T(SRC(it))),
+      RC(it) == IMG(idx.sid, IT_C(SRC(it))),
+      z3.IsSubset(IT_T(SRC(it)), S(ga.all)),
+      z3.IsSubset(IT_C(SRC(it)), S(ga.all)))))
+
+
+def _search_post_len(s):
+  dd = unwrap(s.self._search_results._result)
+  return unwrap(s.result).length == hd.len_of(dd, s.lheap, KEY0)
+
 
 FUNCTIONS2 = [CLS + '.exhaustive_search.skip_if_subset',
-              CLS + '.exhaustive_search']
+              CLS + '.exhaustive_search', CLS + '.search_results']
 
 # ---------------------------------------------------------------------------
 # greedy_search
@@ -381,6 +547,7 @@ spec.contract(
          _g_push_c04, ('C04',)),
         ('C04 greedy: stored design owns objects of this iteration only',
          _freeze, ('C04',)),
+        ('ghost: item view of the pushed design', _reflect_push, ()),
     ]},
     loops=[
         LoopSpec(('while', '(k < max_treatment_size) | needs_matching'),
@@ -402,8 +569,20 @@ spec.contract(
                  extra_modifies=GA_FIELDS_MOD),
         LoopSpec(('k', 'group_star_trt'),
                  invariants=[('result heap well formed', _results_wf),
-                             ('index installed', installed)],
+                             ('index installed', installed),
+                             ('stored designs are made of index positions',
+                              _stored_ok, ('C01', 'C04', 'C09', 'C10'))],
                  extra_modifies=EX_LOOP_MOD),
     ])
 
 FUNCTIONS2.append(CLS + '.greedy_search')
+
+for _q in ('exhaustive_search', 'greedy_search'):
+  spec.contracts[CLS + '.' + _q].ensures.extend(_clauses([
+      ('C01/C04 the returned list holds exactly copies of the stored designs '
+       'with index groups mapped to geo IDs', _search_post_elems,
+       ('C01', 'C04')),
+      ('C14 one returned design per stored design (the heap keeps at most '
+       'n_designs)', _search_post_len, ('C14',)),
+  ], ('C01',)))
+
